@@ -13,6 +13,12 @@ def builder(seed, n, defaults, tag):
         kw, meta = sweep.base_case(rng, g, methods[g % len(methods)], defaults)
         if rng.random() < 0.3:
             kw["max_step"] = abs(kw["xend"] - kw["x0"]) / rng.choice([5, 9, 20])
+        if rng.random() < 0.35 and kw["method"] != "RK4":
+            # a user first_step reaches the solver and (without t_eval) the handler's first-output rule: the dispatch must
+            # hand it to the stepper under every output option (seeded change C12-b dropped it when t_eval is given)
+            lim = min(abs(kw["xend"] - kw["x0"]), kw.get("max_step") or float("inf"))
+            kw["first_step"] = lim * rng.choice([1e-3, 0.02, 0.1, 0.5])
+            meta["first_step"] = 1
         x0, xend = kw["x0"], kw["xend"]
         sp = xend - x0
         te = [x0 + sp * p for p in sorted(rng.uniform(0, 1) for _ in range(rng.randint(1, 9)))]
